@@ -50,11 +50,12 @@ func init() {
 			if tier == "thorough" {
 				return []fw.ChildSpec{
 					{Name: "relay", Mode: "relay", Shards: 8, Timeout: 40 * time.Minute},
-					{Name: "relay-race", Mode: "relay", Race: true, Shards: 4, Timeout: 40 * time.Minute},
+					{Name: "relay-race", Mode: "relay-race", Race: true, Shards: 4, Timeout: 40 * time.Minute},
 					{Name: "dialfail", Mode: "dialfail", Shards: 4, Timeout: 40 * time.Minute},
 				}
 			}
 			return []fw.ChildSpec{{Name: "relay", Mode: "relay", Shards: 6, Timeout: 10 * time.Minute},
+				{Name: "relay-race", Mode: "relay-race", Race: true, Shards: 2, Timeout: 10 * time.Minute},
 				{Name: "dialfail", Mode: "dialfail", Shards: 2, Timeout: 10 * time.Minute}}
 		},
 		Run:    run,
@@ -152,8 +153,8 @@ func run(c *fw.Ctx) {
 	canary := oracle.StartCanary()
 	defer canary.Stop()
 	n := c.Pick(300, 6000)
-	if c.Mode == "relay" && c.NShards == 4 { // race children
-		n = c.Pick(300, 1500)
+	if c.Mode == "relay-race" {
+		n = c.Pick(120, 1500)
 	}
 	baseFDs := countFDs()
 	var mine []int
